@@ -104,6 +104,7 @@ type Func struct {
 	Callback   bool   `json:"callback,omitempty"`
 	Info       bool   `json:"info,omitempty"`
 
+	Salt  int64 `json:"salt,omitempty"`  // decides data-dependent stub behaviour (e.g. flatten lengths); survives renumbering
 	Cat   int   `json:"cat"`              // catalogue index, -1 for a dynamic stub
 	DurNs int64 `json:"dur_ns,omitempty"` // simulated time spent inside the body
 }
